@@ -712,7 +712,111 @@ def check_markers(program, rep):
               "passthrough['type']) back under 'type'", line=f.node.lineno)
 
 
+def check_resolution(program, rep):
+    """What the marker rule trusts: object_from_string walks the dotted
+    name attribute by attribute, and the transformer climbs to the root map
+    by identity tests (never by the truth value of a map)."""
+    f = program.func('desper.model.world', 'object_from_string')
+
+    class _OD(_D):
+        loop_bound = 2
+
+        def for_counts(self, st, node, itersym):
+            return [0, 1, 2]
+    w = Walker(program, _OD(program))
+    exits = [e for e in w.run(f, None) if e.kind == 'return']
+    rep.count('paths', len(exits))
+    bad = None
+    deep = 0
+    for ex in exits:
+        tr = ex.state.trace
+        if ex.payload is None:
+            bad = bad or (ex.node, 'a path returns nothing')
+            continue
+        # the attribute loop is the last loop that ran on this path
+        items = []
+        last_loop = None
+        for e in tr:
+            if e.kind == 'for':
+                last_loop, items = e.node, []
+            elif e.kind == 'for-item' and e.node is last_loop:
+                items.append(e.target.text)
+        node = ex.payload.node
+        layers = []
+        while isinstance(node, ast.Call) and dotted(node.func) == 'getattr' \
+                and len(node.args) == 2:
+            layers.append(norm(node.args[1]))
+            node = node.args[0]
+        layers.reverse()
+        uses_getattr = any(isinstance(x, ast.Call) and dotted(x.func)
+                           == 'getattr' for x in ast.walk(last_loop)) \
+            if last_loop is not None else False
+        if uses_getattr:
+            if len(items) >= 2:
+                deep += 1
+            if layers != items:
+                bad = bad or (ex.node, f'for the name parts {items} the '
+                              f'function returns {ex.payload.text[:160]}: '
+                              'each part must be looked up on the object '
+                              'found for the previous part - a name with two '
+                              'or more attribute levels (${pkg.Class.attr}) '
+                              'resolves to the wrong object')
+    reduce_form = any(isinstance(x, ast.Call) and (dotted(x.func) or '')
+                      .split('.')[-1] == 'reduce' and x.args and norm(
+                          x.args[0]) == 'getattr' for x in ast.walk(f.node))
+    if not reduce_form:
+        rep.floor('C15.markers', 'paths of object_from_string with two '
+                  'attribute levels', deep, 1)
+    rep.check(bad is None, 'C15.markers', f.where,
+              bad[0] if bad else 'attribute walk',
+              'every attribute is looked up on the previous result',
+              bad[1] if bad else '', line=getattr(bad[0], 'lineno', None)
+              if bad else f.node.lineno)
+    # ---- root climb: no truth-value test of a map / handle when some class
+    # of the resource tree defines __len__ / __bool__
+    falsy = []
+    for cname in ('ResourceMap', 'Handle'):
+        c = program.cls(cname)
+        for k in [c] + program.subclasses(c):
+            for mname in ('__len__', '__bool__'):
+                if mname in k.methods:
+                    falsy.append(f'{k.name}.{mname}')
+    g = program.func('desper.model.world', 'resource_dict_transformer')
+    n = 0
+    bad = None
+    for t in ast.walk(g.node):
+        if not isinstance(t, (ast.While, ast.If, ast.IfExp)):
+            continue
+        leaves = []
+        def split(x):
+            if isinstance(x, ast.BoolOp):
+                for v in x.values:
+                    split(v)
+            elif isinstance(x, ast.UnaryOp) and isinstance(x.op, ast.Not):
+                split(x.operand)
+            else:
+                leaves.append(x)
+        split(t.test)
+        for lf in leaves:
+            if any(isinstance(x, ast.Attribute) and x.attr == 'parent'
+                   for x in ast.walk(lf)):
+                n += 1
+                if isinstance(lf, ast.Attribute) and falsy and bad is None:
+                    bad = lf
+    rep.floor('C15.markers', 'tests on .parent in the root climb', n, 1)
+    rep.check(bad is None, 'C15.markers', g.where,
+              bad if bad is not None else 'root climb',
+              'the climb to the root map stops only at parent None',
+              f'the climb to the root map tests the truth value of '
+              f'{norm(bad) if bad is not None else ""} while '
+              f'{", ".join(falsy)} makes maps falsy: the climb stops below '
+              'the root at a map without direct handles and $res{} / '
+              '$handle{} paths are resolved from there (KeyError / None)',
+              line=getattr(bad, 'lineno', None))
+
+
 def run(program, rep, tier):
+    check_resolution(program, rep)
     check_load(program, rep)
     check_populate(program, rep)
     check_transform(program, rep)
